@@ -292,6 +292,9 @@ func (p *Prog) Global(rel, name string) *ssa.Global {
 		return nil
 	}
 	g, _ := pk.Members[name].(*ssa.Global)
+	if g == nil {
+		return p.resolveGlobalRole(rel, name)
+	}
 	return g
 }
 
